@@ -78,7 +78,7 @@ def exec (st : State) (toks : List String) : State × List String :=
       let ops := orig.flatMap (·.ops)
       let image := orig.length == anon.length &&
         cpairs.all (fun p => p.2.ops == p.1.ops.map (mapOp ρ) && p.2.actor == ρ.actor p.1.actor && p.2.startOp == p.1.startOp)
-      let actorsOk := decide (ActorMono ρ ops) &&
+      let actorsOk := actorMonoB ρ ops &&
         cpairs.all (fun p => cpairs.all (fun q => bytesLt (ρ.actor p.1.actor) (ρ.actor q.1.actor) == bytesLt p.1.actor q.1.actor))
       let keyinj := keyInjB ρ ops
       let names := markNames ops
@@ -100,7 +100,10 @@ def exec (st : State) (toks : List String) : State × List String :=
       let da : Doc := ⟨orig, []⟩
       let db : Doc := ⟨anon, []⟩
       let W := opWidth e true
-      let headSets := orig.map (fun c => [c.hash]) ++ [da.heads]
+      -- long histories (the many-actors scenario): the first and the last four changes and every 16th one
+      let n := orig.length
+      let picked := (orig.zip (List.range n)).filter (fun p => n ≤ 80 || p.2 < 4 || p.2 + 4 ≥ n || p.2 % 16 == 0)
+      let headSets := picked.map (fun p => [p.1.hash]) ++ [da.heads]
       let lines := (headSets.zip (List.range headSets.length)).map (fun (hs, i) =>
         let sa := render (shapeAt tagOf W da hs)
         let sb := render (shapeAt tagOf W db (hs.map η))
